@@ -227,6 +227,10 @@ def replay_edges(edges, mode, val, verdict: Verdict, stats):
         post = project(os_)
         stats["edges"] += 1
         bad = p_clauses(pre, op["op"], ret, post, mode, idL, val, os_.samples)
+        # the threshold the store works with is the one it was given (protocol: the likelihood of one of its
+        # live samples - it may be LOWER than the previous one under the soft threshold)
+        if op["op"] == "threshold" and post["thr"] != val(op["t"]):
+            bad.append("threshold_is_the_one_set")
         for b in bad:
             verdict.violation(
                 b, f"clause {b} fails after {op['op']} (mode strict={strict}, "
